@@ -306,6 +306,41 @@ fn dense_midstep_order() -> Option<String> {
     None
 }
 
+
+/// C17: a + b and a - b have the shape of the operands and, entry by entry, the sum / difference of their dense views,
+/// whatever the storage schemes (also for rectangular Full matrices)
+fn matrix_arith_dense_model() -> Option<String> {
+    use ivp::matrix::Matrix;
+    fn fill(mut m: Matrix, seed: f64) -> Matrix {
+        let (n, mm) = m.dims();
+        for i in 0..n { for j in 0..mm {
+            let ok = std::panic::catch_unwind(std::panic::AssertUnwindSafe(|| { let mut c = m.clone(); c[(i, j)] = 1.0; })).is_ok();
+            if ok { m[(i, j)] = seed + (3 * i + j) as f64; }
+        } }
+        m
+    }
+    let prev = std::panic::take_hook(); std::panic::set_hook(Box::new(|_| {}));
+    let mut res = None;
+    'outer: for (n, mm) in [(2usize, 3usize), (3, 3), (3, 2)] {
+        let mut cands: Vec<(String, Matrix)> = vec![("full".into(), fill(Matrix::full(n, mm), 1.0))];
+        if n == mm { cands.push(("identity".into(), Matrix::identity(n))); cands.push(("banded(1,0)".into(), fill(Matrix::banded(n, 1, 0), 2.0))); cands.push(("banded(0,2)".into(), fill(Matrix::banded(n, 0, 2), 5.0))); }
+        for (na, a) in &cands { for (nb, b) in &cands {
+            for op in ["+", "-"] {
+                let (a2, b2) = (a.clone(), b.clone());
+                let r = std::panic::catch_unwind(move || if op == "+" { a2 + b2 } else { a2 - b2 });
+                let c = match r { Ok(c) => c, Err(_) => { res = Some(format!("{}x{} {} {} {}: panicked", n, mm, na, op, nb)); break 'outer; } };
+                if c.dims() != (n, mm) { res = Some(format!("{}x{} {} {} {}: the result has dims {:?}", n, mm, na, op, nb, c.dims())); break 'outer; }
+                for i in 0..n { for j in 0..mm {
+                    let want = if op == "+" { a[(i, j)] + b[(i, j)] } else { a[(i, j)] - b[(i, j)] };
+                    if c[(i, j)] != want { res = Some(format!("{}x{} {} {} {}: entry ({},{}) is {} instead of {}", n, mm, na, op, nb, i, j, c[(i, j)], want)); break 'outer; }
+                } }
+            }
+        } }
+    }
+    std::panic::set_hook(prev);
+    res
+}
+
 fn main() {
     let which = std::env::args().nth(1).unwrap_or_default();
     let r = match which.as_str() {
@@ -317,6 +352,7 @@ fn main() {
         "matrix_dense_model" => matrix_dense_model(),
         "rk4_overshoot" => rk4_overshoot(),
         "counters" => counters(),
+        "matrix_arith_dense_model" => matrix_arith_dense_model(),
         "dense_midstep_order" => dense_midstep_order(),
         "first_step_reaches_xend" => first_step_reaches_xend(),
         "short_steps_reported" => short_steps_reported(),
